@@ -1,3 +1,4 @@
+import TrionModel.Lemmas.SimpE
 import TrionModel.Lemmas.ShowAsm
 import TrionModel.Lemmas.ShowText
 import TrionModel.Lemmas.ShowDec
@@ -100,7 +101,18 @@ theorem show_assembles_eval (i : Instr) (a : Nat) (lk : Bytes → Simp.Lookup) (
 `simpEval` are such evaluators -/
 theorem frontEval_isSimp (t : Asm.Table) : EvalIsSimp (Asm.frontEval t) (fun n => t.get n) := by
   intro x ch a' h
-  simp [Asm.frontEval, Asm.evalIn, h]
+  have hE := Simp.evaluateE_is_evaluateT (fun n => t.get n) isRegister x
+  rw [h] at hE
+  cases hev : Simp.evaluateE (fun n => t.get n) isRegister x with
+  | ok ev a'' =>
+    rw [hev] at hE
+    simp only [Simp.EvE.toT, Simp.EvT.ok.injEq] at hE
+    obtain ⟨h1, h2⟩ := hE
+    subst h1 h2
+    simp [Asm.frontEval, Asm.evalIn, hev]
+  | nosuch n a'' => rw [hev] at hE; simp [Simp.EvE.toT] at hE
+  | err e a'' => rw [hev] at hE; simp [Simp.EvE.toT] at hE
+  | panic => rw [hev] at hE; simp [Simp.EvE.toT] at hE
 
 theorem simpEval_isSimp (lk : Bytes → Simp.Lookup) : EvalIsSimp (simpEval lk) lk := evalIsSimp_simpEval lk
 
